@@ -146,10 +146,75 @@ def roundtrip (line : String) : String :=
               let onLine := segs.any fun s => Float.sqrt (ratToFloat (sqDistSeg q s.a s.b)) ≤ 1e-9 * m
               if !onLine then "violated:interpolated-point-off-line"
               else if dq ≤ db + 1e-9 * m then "ok" else "violated:not-nearest"
-          | none => "non-finite"
+          | none => "violated:non-finite-result"
         | _, _, _, _ => "bad-line"
       | _ => "bad-line"
     | none => "bad-line"
+  | _ => "bad-line"
+
+/-- arc-length positions (Float) at which point `q` lies on the line (within tol): one per segment that contains it -/
+def arcPositions (segs : List Seg) (q : Pt) (tol : Float) : List Float :=
+  let rec go : List Seg → Float → List Float → List Float
+    | [], _, acc => acc
+    | s :: r, pre, acc =>
+      let len := Float.sqrt (Float.ofInt (sqDist s.a s.b))
+      let acc := if Float.sqrt (ratToFloat (sqDistSeg q s.a s.b)) ≤ tol then (pre + Float.sqrt (Float.ofInt (sqDist s.a q))) :: acc else acc
+      go r (pre + len) acc
+  go segs 0 []
+
+def polyLen (ls : List (List Pt)) : Float :=
+  (ls.flatMap segsOf).foldl (fun t s => t + Float.sqrt (Float.ofInt (sqDist s.a s.b))) 0
+
+/-- property-level oracles for interpolate / substring (support for the search after a `linref` disagreement):
+  `IL lines d | qx qy`        q = GEOSInterpolate(d): q lies on the line at arc length clamp(d) (negative from the end)
+  `SL lines f0 f1 | lines`    GEOSLineSubstring: every vertex on the line, length = |f1 − f0| · length
+tolerance 1e-9 · (coordinate magnitude + length), all in integer units of the common scale -/
+def oracle (line : String) : String :=
+  match Driver.tokens line with
+  | "RT" :: _ => roundtrip line
+  | "IL" :: r =>
+    match parseLineSet r with
+    | some (ls, [d, "|", qx, qy]) =>
+      match Driver.parseHex64 d, Driver.parseHex64 qx, Driver.parseHex64 qy with
+      | some d, some qx, some qy =>
+        let all := (qx, qy) :: ls.flatten
+        match (all.flatMap fun p => [p.1, p.2]).mapM F64.dyadic with
+        | none => "violated:non-finite-result"
+        | some ds =>
+          let e0 := F64.minExp ds
+          match scaler all with
+          | none => "non-finite"
+          | some sc =>
+            let unit := Float.scaleB 1.0 e0             -- value of one integer unit
+            let segs := (ls.map fun l => l.map sc).flatMap segsOf
+            let L := polyLen (ls.map fun l => l.map sc)
+            let m := Float.ofInt (maxAbs (all.map sc))
+            let tol := 1e-9 * (m + L)
+            let dU := fOf d / unit
+            let want := let f := if dU < 0 then L + dU else dU; if f < 0 then 0 else if f > L then L else f
+            let pos := arcPositions segs (sc (qx, qy)) tol
+            if pos.isEmpty then "violated:interpolated-point-off-line"
+            else if pos.any (fun a => Float.abs (a - want) ≤ tol) then "ok" else "violated:interpolated-point-at-wrong-distance"
+      | _, _, _ => "bad-line"
+    | _ => "bad-line"
+  | "SL" :: r =>
+    match parseLineSet r with
+    | some (ls, f0 :: f1 :: "|" :: rest) =>
+      match Driver.parseHex64 f0, Driver.parseHex64 f1, parseLineSet rest with
+      | some f0, some f1, some (out, []) =>
+        match scaler (ls.flatten ++ out.flatten) with
+        | none => "violated:non-finite-result"
+        | some sc =>
+          let inp := ls.map fun l => l.map sc
+          let o := out.map fun l => l.map sc
+          let segs := inp.flatMap segsOf
+          let L := polyLen inp
+          let m := Float.ofInt (maxAbs ((ls.flatten ++ out.flatten).map sc))
+          let tol := 1e-9 * (m + L)
+          if !(o.flatten.all fun q => !(arcPositions segs q tol).isEmpty) then "violated:substring-vertex-off-line"
+          else if Float.abs (polyLen o - Float.abs (fOf f1 - fOf f0) * L) ≤ tol then "ok" else "violated:substring-length"
+      | _, _, _ => "bad-line"
+    | _ => "bad-line"
   | _ => "bad-line"
 
 /-! ### merge -/
@@ -184,10 +249,13 @@ def merge (line : String) : String :=
           let lines := (mkLines sc inp).filter fun ln => 2 ≤ ln.pts.length
           let m := maxAbs ((inp.flatten ++ out.flatten).map sc) + 1
           let es := lines.map (lineEdge (nodeKey m))
-          let dec := out.map fun o => decompose lines (lines.length + 1) [] (dedup (o.map sc))
-          if dec.any Option.isNone then "violated:output-not-made-of-input-lines"
-          else
-            let chains : List Chain := dec.map fun d => (d.getD []).filterMap fun (id, fwd) =>
+          let outs := out.map fun o => o.map sc
+          let dec0 := if directed then decomposeAll false lines outs [] else none
+          let dec := match dec0 with | some d => some d | none => decomposeAll true lines outs []
+          match dec with
+          | none => "violated:output-not-made-of-input-lines"
+          | some dec =>
+            let chains : List Chain := dec.map fun d => d.filterMap fun (id, fwd) =>
               (es.find? (·.id == id)).map fun e => (⟨e, fwd⟩ : DEdge)
             let v := mergeVerdictClauses directed es chains
             if v != "ok" then "violated:" ++ v
@@ -253,6 +321,7 @@ def polygonizeCore (mode gv : String) (inp : RawLines) (polys : List RawLines) (
       let o : PolyOut := ⟨polys.map cv, cv dang, cv cuts, cv inv⟩
       let v := polygonizeVerdict (mode == "f") (nodeKey m) lines o
       if v != "ok" then "violated:" ++ v
+      else if !polyCore (mode == "f") lines o then "violated:polyCore"
       else if gv != "1" then "violated:GEOSisValid-false"
       else "ok"
 
@@ -280,14 +349,16 @@ def polygonize (line : String) : String :=
 
 /-! ### shared paths -/
 
-def sharedCore (g1 g2 same opp : RawLines) : String :=
+def sharedRun (g1 g2 same opp : RawLines) : String :=
   let all : List RawPt := g1.flatten ++ g2.flatten ++ same.flatten ++ opp.flatten
   match scaler all with
   | none => "non-finite"
   | some sc =>
     let f : RawLines → List (List Pt) := fun ls => ls.map fun l => l.map sc
     let v := sharedVerdict (f g1) (f g2) (f same) (f opp)
-    if v == "ok" then "ok" else "violated:" ++ v
+    if v != "ok" then "violated:" ++ v
+    else if !Lines.sharedCore (f g1) (f g2) (f same) (f opp) then "violated:sharedCore"
+    else "ok"
 
 def parseShared (r : List String) : Option (RawLines × RawLines × Option (RawLines × RawLines)) := do
   let (g1, r) ← parseLineSet r
@@ -309,7 +380,7 @@ def sharedpaths (line : String) : String :=
   | "H" :: r =>
     match parseShared r with
     | some (_, _, none) => "threw"
-    | some (g1, g2, some (same, opp)) => sharedCore g1 g2 same opp
+    | some (g1, g2, some (same, opp)) => sharedRun g1 g2 same opp
     | none => "bad-line"
   | _ => "bad-line"
 
@@ -317,8 +388,8 @@ end Driver.C19
 
 def handlers : List (String × (String → String)) :=
   [ ("linref", Driver.C19.linref),
-    ("roundtrip", Driver.C19.roundtrip),
-    ("roundtrip_multi", Driver.C19.roundtrip),
+    ("oracle", Driver.C19.oracle),
+    ("oracle_multi", Driver.C19.oracle),
     ("merge", Driver.C19.merge),
     ("node", Driver.C19.node),
     ("node_fp", Driver.C19.node),
